@@ -293,3 +293,298 @@ Proof.
   split; [|split; vm_compute; reflexivity].
   repeat constructor; vm_compute; reflexivity.
 Qed.
+
+(* ================================================================ reverse iterator *)
+Fixpoint zip_down (i : Z) (cs : list Z) : list (Z * Z) :=
+  match cs with [] => [] | c :: r => (i, c) :: zip_down (i - 1) r end.
+(* descending expansion: rs/rb are the spans/buckets reversed, e = one past the last index of the head span *)
+Fixpoint rexpand (rs : list span) (rb : list Z) (e : Z) : list (Z * Z) :=
+  match rs with
+  | [] => []
+  | s :: r => let n := Z.to_nat (sp_len s) in
+              zip_down (e - 1) (firstn n rb) ++ rexpand r (skipn n rb) (e - sp_len s - sp_off s)
+  end.
+
+Lemma rexpand_nil rs e : rexpand rs [] e = [].
+Proof.
+  revert e. induction rs as [|s r IH]; intros e; simpl; auto.
+  rewrite firstn_nil, skipn_nil, IH. reflexivity.
+Qed.
+
+Definition rremaining (s : span) (earlier : list span) (idxIn cur : Z) (rb : list Z) : list (Z * Z) :=
+  let k := Z.to_nat (idxIn + 1) in
+  zip_down (cur - 1) (firstn k rb) ++ rexpand earlier (skipn k rb) (cur - (idxIn + 1) - sp_off s).
+
+Definition RRstmt (rb : list Z) : Prop :=
+  forall s earlier idxIn cur, -1 <= idxIn -> nonneg_spans earlier ->
+    rnext_all rb (s :: earlier) idxIn cur = rremaining s earlier idxIn cur rb.
+
+Lemma rskip_unfold rs idxIn cur :
+  rskip rs idxIn cur =
+  if idxIn <? 0 then
+    match rs with
+    | [] => None
+    | s :: rs' => match rs' with [] => None | s' :: _ => rskip rs' (sp_len s' - 1) (cur - sp_off s) end
+    end
+  else Some (rs, idxIn, cur).
+Proof. destruct rs; reflexivity. Qed.
+
+Lemma rskip0 b rb' : RRstmt rb' -> forall earlier s c, nonneg_spans earlier ->
+  match rskip (s :: earlier) (-1) c with
+  | None => []
+  | Some (rs2, i2, cur2) => (cur2, b) :: rnext_all rb' rs2 (i2 - 1) cur2
+  end = rexpand earlier (b :: rb') (c + 1 - sp_off s).
+Proof.
+  intros HR earlier. induction earlier as [|s' r'' IH]; intros s c Hn.
+  - reflexivity.
+  - rewrite rskip_unfold. change (-1 <? 0) with true. cbn iota.
+    inversion Hn as [|? ? Hs' Hr'']; subst.
+    rewrite rskip_unfold. destruct (sp_len s' - 1 <? 0) eqn:E.
+    + apply Z.ltb_lt in E. assert (Hz : sp_len s' = 0) by lia.
+      specialize (IH s' (c - sp_off s) Hr''). rewrite rskip_unfold in IH.
+      change (-1 <? 0) with true in IH. cbn iota in IH. cbn iota.
+      rewrite IH. cbn [rexpand]. rewrite Hz. change (Z.to_nat 0) with 0%nat.
+      cbn [firstn skipn zip_down app]. f_equal. lia.
+    + apply Z.ltb_ge in E. rewrite HR; [|lia|auto].
+      unfold rremaining. cbn [rexpand].
+      replace (Z.to_nat (sp_len s')) with (S (Z.to_nat (sp_len s' - 1 - 1 + 1))) by lia.
+      cbn [firstn skipn zip_down app].
+      repeat (f_equal; try lia).
+Qed.
+
+Lemma RR_all rb : RRstmt rb.
+Proof.
+  induction rb as [|b rb' IH]; intros s earlier idxIn cur Hi Hn.
+  - unfold rremaining. rewrite firstn_nil, skipn_nil, rexpand_nil. reflexivity.
+  - cbn [rnext_all]. destruct (idxIn <? 0) eqn:E.
+    + apply Z.ltb_lt in E. assert (idxIn = -1) as -> by lia.
+      rewrite (rskip0 b rb' IH earlier s (cur - 1) Hn).
+      unfold rremaining. change (Z.to_nat (-1 + 1)) with 0%nat. cbn [firstn skipn zip_down app].
+      f_equal. lia.
+    + rewrite rskip_unfold, E. apply Z.ltb_ge in E. rewrite IH; [|lia|auto].
+      unfold rremaining.
+      replace (Z.to_nat (idxIn + 1)) with (S (Z.to_nat (idxIn - 1 + 1))) by lia.
+      cbn [firstn skipn zip_down app]. repeat (f_equal; try lia).
+Qed.
+
+Definition endidx (ss : list span) (next : Z) : Z := fold_left (fun a s => a + sp_off s + sp_len s) ss next.
+
+(* the reverse iterator enumerates the descending expansion *)
+Lemma rev_iter_rexpand ss bs : nonneg_spans ss -> (ss = [] -> bs = []) ->
+  rev_iter ss bs = rexpand (rev ss) (rev bs) (endidx ss 0).
+Proof.
+  intros Hn He. unfold rev_iter. fold (endidx ss 0).
+  destruct (rev ss) as [|s earlier] eqn:Er.
+  - assert (ss = []) by (destruct ss; auto; apply (f_equal (@List.length _)) in Er; rewrite rev_length in Er; discriminate).
+    rewrite (He H). reflexivity.
+  - rewrite RR_all.
+    + unfold rremaining. cbn [rexpand]. replace (sp_len s - 1 + 1) with (sp_len s) by lia. reflexivity.
+    + assert (In s ss) by (apply in_rev; rewrite Er; left; auto).
+      unfold nonneg_spans in Hn. rewrite Forall_forall in Hn. specialize (Hn s H). lia.
+    + unfold nonneg_spans in *. rewrite Forall_forall in *. intros x Hx. apply Hn. apply in_rev. rewrite Er. right. auto.
+Qed.
+
+(* ---------------------------------------------------------------- descending = reverse of ascending *)
+Definition tot (ss : list span) : nat := fold_right (fun s a => (Z.to_nat (sp_len s) + a)%nat) 0%nat ss.
+Definition width (ss : list span) : Z := fold_right (fun s a => sp_off s + sp_len s + a) 0 ss.
+
+Lemma tot_app a b : tot (a ++ b) = (tot a + tot b)%nat.
+Proof. induction a; simpl; auto. rewrite IHa. lia. Qed.
+Lemma tot_rev a : tot (rev a) = tot a.
+Proof. induction a; simpl; auto. rewrite tot_app, IHa. simpl. lia. Qed.
+Lemma width_app a b : width (a ++ b) = width a + width b.
+Proof. induction a; simpl; auto. rewrite IHa. lia. Qed.
+Lemma width_rev a : width (rev a) = width a.
+Proof. induction a; simpl; auto. rewrite width_app, IHa. simpl. lia. Qed.
+Lemma endidx_width ss next : endidx ss next = next + width ss.
+Proof.
+  unfold endidx. revert next. induction ss as [|s r IH]; intros next; simpl; [lia|].
+  rewrite IH. lia.
+Qed.
+
+Lemma zip_down_app a b i : zip_down i (a ++ b) = zip_down i a ++ zip_down (i - Z.of_nat (List.length a)) b.
+Proof.
+  revert i. induction a as [|c a IH]; intros i; simpl zip_down; simpl app.
+  - f_equal. simpl. lia.
+  - rewrite IH. simpl List.length. do 3 f_equal. lia.
+Qed.
+
+Lemma zip_down_rev l st : zip_down (st + Z.of_nat (List.length l) - 1) (rev l) = rev (zip_idx st l).
+Proof.
+  revert st. induction l as [|c l IH]; intros st; [reflexivity|].
+  simpl rev. simpl zip_idx. simpl rev. rewrite zip_down_app, rev_length.
+  simpl List.length. rewrite <- IH. simpl zip_down.
+  f_equal; [f_equal; lia|]. do 2 f_equal. lia.
+Qed.
+
+Lemma skipn_skipn' {A} x y (l : list A) : skipn x (skipn y l) = skipn (y + x) l.
+Proof.
+  revert l. induction y as [|y IH]; intros l; [reflexivity|].
+  destruct l; [simpl; apply skipn_nil|]. simpl. apply IH.
+Qed.
+
+Lemma rexpand_app a b rb e :
+  rexpand (a ++ b) rb e = rexpand a rb e ++ rexpand b (skipn (tot a) rb) (e - width a).
+Proof.
+  revert rb e. induction a as [|s a IH]; intros rb e.
+  - simpl. f_equal. lia.
+  - simpl app. cbn [rexpand tot width fold_right]. rewrite IH, <- app_assoc.
+    rewrite skipn_skipn'. fold (tot a). do 3 f_equal; lia.
+Qed.
+
+Lemma rexpand_prefix a x y e : List.length x = tot a -> rexpand a (x ++ y) e = rexpand a x e.
+Proof.
+  revert x e. induction a as [|s a IH]; intros x e Hl; [reflexivity|].
+  cbn [rexpand]. cbn [tot fold_right] in Hl. fold (tot a) in Hl.
+  set (n := Z.to_nat (sp_len s)) in *.
+  rewrite firstn_app, skipn_app.
+  replace (n - List.length x)%nat with 0%nat by lia. cbn [firstn skipn]. rewrite app_nil_r.
+  rewrite IH; auto. rewrite skipn_length. lia.
+Qed.
+
+Theorem rexpand_rev_expand ss : nonneg_spans ss -> forall bs next, List.length bs = tot ss ->
+  rexpand (rev ss) (rev bs) (endidx ss next) = rev (expand ss bs next).
+Proof.
+  induction 1 as [|s r Hs Hr IH]; intros bs next Hl.
+  - destruct bs; [reflexivity|discriminate].
+  - cbn [tot fold_right] in Hl. fold (tot r) in Hl.
+    set (n := Z.to_nat (sp_len s)) in *.
+    cbn [expand]. fold n.
+    set (x1 := firstn n bs). set (x2 := skipn n bs).
+    assert (Hx1 : List.length x1 = n) by (unfold x1; rewrite firstn_length; lia).
+    assert (Hx2 : List.length x2 = tot r) by (unfold x2; rewrite skipn_length; lia).
+    assert (Hbs : bs = x1 ++ x2) by (unfold x1, x2; symmetry; apply firstn_skipn).
+    rewrite rev_app_distr.
+    assert (Hrev : rev bs = rev x2 ++ rev x1) by (rewrite Hbs; apply rev_app_distr).
+    rewrite Hrev.
+    cbn [rev]. rewrite rexpand_app, tot_rev, width_rev.
+    rewrite rexpand_prefix by (rewrite rev_length, tot_rev; auto).
+    replace (endidx (s :: r) next) with (endidx r (next + sp_off s + sp_len s)) by reflexivity.
+    rewrite IH by auto. f_equal.
+    rewrite skipn_app, rev_length, Hx2. rewrite skipn_all2 by (rewrite rev_length; lia).
+    replace (tot r - tot r)%nat with 0%nat by lia. cbn [skipn app].
+    cbn [rexpand]. fold n. rewrite firstn_all2 by (rewrite rev_length; lia).
+    cbn [skipn]. rewrite app_nil_r. rewrite endidx_width.
+    rewrite <- zip_down_rev. rewrite Hx1. f_equal. unfold n. lia.
+Qed.
+
+Lemma spans_ok_tot ss bs : spans_ok ss bs = true -> nonneg_spans ss /\ List.length bs = tot ss.
+Proof.
+  unfold spans_ok. intros H. apply andb_true_iff in H as [H1 H2].
+  rewrite forallb_forall in H1. apply Z.eqb_eq in H2.
+  assert (Hn : nonneg_spans ss).
+  { unfold nonneg_spans. rewrite Forall_forall. intros s Hs. apply Z.leb_le. auto. }
+  split; auto.
+  assert (Hg : forall ss a, nonneg_spans ss -> fold_left (fun a s => a + sp_len s) ss a = a + Z.of_nat (tot ss)).
+  { clear. induction ss as [|s r IH]; intros a Hn; simpl; [lia|].
+    inversion Hn; subst. rewrite IH by auto. fold (tot r). lia. }
+  rewrite Hg in H2 by auto. lia.
+Qed.
+
+(* The reverse iterator (reverseFloatBucketIterator) over a valid span/bucket layout enumerates the
+   expansion of the spans in reverse order. *)
+Theorem rev_iter_expand ss bs : spans_ok ss bs = true -> rev_iter ss bs = rev (expand ss bs 0).
+Proof.
+  intros H. destruct (spans_ok_tot ss bs H) as [Hn Hl].
+  rewrite rev_iter_rexpand; auto.
+  - apply rexpand_rev_expand; auto.
+  - intros ->. destruct bs; auto. discriminate.
+Qed.
+
+
+(* ================================================================ negative side and the full statement *)
+Ltac Zify.zify_post_hook ::= Z.div_mod_to_equations.
+
+Definition bits64 (x : Z) : Prop := 0 <= x < 18446744073709551616.
+
+Lemma fneg_facts x : bits64 x -> fkey (fnegate x) = - fkey x /\ fabs (fnegate x) = fabs x.
+Proof.
+  unfold bits64. intros H. unfold fkey, fnegate, fsign, fabs, two63.
+  destruct (9223372036854775808 <=? x) eqn:E; [apply Z.leb_le in E | apply Z.leb_gt in E].
+  - replace (9223372036854775808 <=? x - 9223372036854775808) with false by (symmetry; apply Z.leb_gt; lia).
+    split; lia.
+  - replace (9223372036854775808 <=? x + 9223372036854775808) with true by (symmetry; apply Z.leb_le; lia).
+    split; lia.
+Qed.
+
+Lemma fnan_fnegate x : bits64 x -> fnan (fnegate x) = fnan x.
+Proof. intros H. unfold fnan. destruct (fneg_facts x H) as [_ ->]. reflexivity. Qed.
+
+Lemma flt_neg_of_fgt x : bits64 x -> fgt x fzero = true -> flt (fnegate x) fzero = true.
+Proof.
+  intros Hb. unfold fgt, flt. rewrite (fnan_fnegate x Hb). destruct (fneg_facts x Hb) as [-> _].
+  change (fkey fzero) with 0. intros H. apply andb_true_iff in H as [H1 H2]. apply andb_true_iff in H1 as [H0 Hx].
+  rewrite H0, Hx. cbn [andb]. apply Z.ltb_lt in H2. apply Z.ltb_lt. lia.
+Qed.
+
+Lemma fgt_neg_of_not_flt x : bits64 x -> flt x fzero = false -> fgt (fnegate x) fzero = false.
+Proof.
+  intros Hb. unfold fgt, flt. rewrite (fnan_fnegate x Hb). destruct (fneg_facts x Hb) as [-> _].
+  change (fkey fzero) with 0. change (fnan fzero) with false. cbn [negb].
+  destruct (negb (fnan x)); cbn [andb]; auto.
+  intros H. apply Z.ltb_ge in H. apply Z.ltb_ge. lia.
+Qed.
+
+Lemma flt_not_fgt a : flt a fzero = true -> fgt a fzero = false.
+Proof.
+  unfold fgt, flt. change (fkey fzero) with 0. intros H. apply andb_true_iff in H as [H1 H2]. apply Z.ltb_lt in H2.
+  destruct (negb (fnan fzero) && negb (fnan a)); cbn; auto. apply Z.ltb_ge. lia.
+Qed.
+
+Section Full.
+Variable fmt : Z -> fmtk -> bytes.
+Variable ebound : Z -> Z -> Z.
+
+(* oracle condition for an index on the negative side (exponential schemas only) *)
+Definition idxn_ok (h : hist) (i : Z) : Prop :=
+  bits64 (ebound (h_schema h) i) /\ bits64 (ebound (h_schema h) (i - 1)) /\
+  fgt (ebound (h_schema h) i) fzero = true /\ flt (ebound (h_schema h) (i - 1)) fzero = false.
+
+Lemma neg_bucket h ic : h_schema h =? custom_schema = false -> idxn_ok h (fst ic) ->
+  exists b, bind (bucket_at ebound h false ic) (fun b => Ok (clip h b)) = Ok b /\ b4 b = spec_neg ebound h ic.
+Proof.
+  destruct ic as [i c]. cbn [fst]. intros Hc (Hb1 & Hb0 & Hhi & Hlo).
+  eexists. split.
+  - unfold bucket_at, get_bound. rewrite Hc. cbn [bind].
+    rewrite (flt_neg_of_fgt _ Hb1 Hhi), (fgt_neg_of_not_flt _ Hb0 Hlo). reflexivity.
+  - unfold clip, spec_neg, b4, spec_bound. rewrite Hc. cbn [b_lo b_hi b_loinc b_hiinc b_cnt fst snd].
+    destruct (flt (fnegate (ebound (h_schema h) (i - 1))) fzero &&
+              fgt (fnegate (ebound (h_schema h) (i - 1))) (fnegate (h_zt h))); [reflexivity|].
+    rewrite (flt_not_fgt _ (flt_neg_of_fgt _ Hb1 Hhi)). reflexivity.
+Qed.
+
+Lemma mapM_neg h l : h_schema h =? custom_schema = false -> Forall (fun ic => idxn_ok h (fst ic)) l ->
+  exists bl, mapM (fun ic => bind (bucket_at ebound h false ic) (fun b => Ok (clip h b))) l = Ok bl
+             /\ map b4 bl = map (spec_neg ebound h) l.
+Proof.
+  intros Hc. induction 1 as [|ic l Hic Hl (bl & IH1 & IH2)].
+  - exists []. auto.
+  - destruct (neg_bucket h ic Hc Hic) as (b & H1 & H2). exists (b :: bl). split.
+    + cbn [mapM]. rewrite H1. cbn [bind]. rewrite IH1. reflexivity.
+    + cbn [map]. rewrite H2, IH2. reflexivity.
+Qed.
+
+(* MarshalHistogram on any valid exponential-schema histogram: the bytes are the canonical rendering
+   of count, sum and exactly the specification's non-empty buckets. *)
+Theorem marshal_histogram_exp h :
+  h_schema h =? custom_schema = false ->
+  spans_ok (h_nspans h) (h_nb h) = true -> nonneg_spans (h_pspans h) ->
+  Forall (fun ic => idxn_ok h (fst ic)) (expand (h_nspans h) (h_nb h) 0) ->
+  Forall (fun ic => idx_ok ebound h (fst ic)) (expand (h_pspans h) (h_pb h) 0) ->
+  fgt (h_zc h) fzero = fne (h_zc h) fzero ->
+  marshal_histogram fmt ebound h = Ok (render_hist fmt (h_count h) (h_sum h) (spec_exposed ebound h)).
+Proof.
+  intros Hc Hns Hps Hn Hp Hz. unfold marshal_histogram, all_buckets.
+  rewrite rev_iter_expand by auto. rewrite fwd_iter_expand by auto.
+  destruct (mapM_neg h (rev (expand (h_nspans h) (h_nb h) 0)) Hc) as (nl & Hnm & Hn4).
+  { apply Forall_rev. exact Hn. }
+  destruct (mapM_pos ebound h _ Hp) as (pl & Hpm & Hp4).
+  rewrite Hnm, Hpm, Hc. cbn [bind].
+  assert (Hzz : (if fgt (h_zc h) fzero then Ok [mkB (fnegate (h_zt h)) (h_zt h) true true (h_zc h)] else Ok [])
+                = Ok (if fgt (h_zc h) fzero then [mkB (fnegate (h_zt h)) (h_zt h) true true (h_zc h)] else []))
+    by (destruct (fgt (h_zc h) fzero); reflexivity).
+  rewrite Hzz. cbn [bind]. rewrite loop_false.
+  unfold render_hist, spec_exposed, spec_all. rewrite !map_app, Hn4, Hp4, <- Hz.
+  destruct (fgt (h_zc h) fzero); reflexivity.
+Qed.
+End Full.
